@@ -8,6 +8,9 @@
 //	put|get|del|qry <key>                    fstree Put / Get / Delete / Query(prefix)
 //	ens <r|c|g> <path> | enr <r|c|g> <rel> | end <r|c|g> <names>   DirStructure.EnsureAbsPath / EnsureRelPath / EnsureRelDir
 //	                                         called on the root structure, its child or its grandchild
+//	chd <h> <name> <perm> | hens <h> | hena <h> <path> | henr <h> <rel> | hend <h> <names>
+//	                                         comp dsh (one DirStructure tree per case, calls accumulate): ChildDir / Ensure /
+//	                                         EnsureAbsPath / EnsureRelPath / EnsureRelDir on node <h> (0 = root, children in order of registration)
 //	unz <names>                              UnpackResources on a zip archive with these entry names ("x/" = directory entry)
 //	scan <root>                              ResourceRegistry.ScanStorage(root)
 //	clean|dir|base <p>, join|rel <a> <b>     the stdlib functions the model re-implements
@@ -118,9 +121,17 @@ type exec struct {
 
 	fst            storage.Interface
 	ds, dsC, dsG   *utils.DirStructure
+	handles        []*utils.DirStructure // comp dsh: node 0 = NewDirStructure(root), then every child in order of registration
+	chdLog         []dshCall             // comp dsh: the ChildDir calls of this case (replayed when the sandbox is rebuilt)
 	rootGiven      string
 	nonce          int
 	outsideDirtied bool
+}
+
+type dshCall struct {
+	h    int
+	name string
+	perm os.FileMode
 }
 
 func newExec(r *hxlib.Run) hxlib.Exec {
@@ -247,6 +258,13 @@ func (e *exec) build() {
 		must(os.MkdirAll(e.sb.root, 0o755))
 	}
 	e.restoreInside()
+	if e.comp == "dsh" {
+		// a fresh tree on the (new) root path; the ChildDir calls made so far are repeated
+		e.handles = []*utils.DirStructure{utils.NewDirStructure(e.rootGiven, 0o755)}
+		for _, c := range e.chdLog {
+			e.dshChild(c)
+		}
+	}
 	cwd := filepath.Join(top, e.cwdRel)
 	if e.variant == "noexist" && e.sb.underRoot(cwd) {
 		cwd = top // the root must not exist: the working directory cannot be inside it
@@ -286,6 +304,13 @@ func (e *exec) restoreInside() {
 		e.ds = utils.NewDirStructure(e.rootGiven, 0o755)
 		e.dsC = e.ds.ChildDir("tmp", 0o700)
 		e.dsG = e.dsC.ChildDir("sub", 0o750)
+	case "dsh":
+		// the tree of DirStructure nodes lives as long as the case; only the directory content is reset
+		_ = os.RemoveAll(root)
+		if e.variant != "noexist" {
+			must(os.Mkdir(root, 0o755))
+			must(os.Chmod(root, 0o755))
+		}
 	case "upd":
 		if st, err := os.Stat(root); err != nil || !st.IsDir() {
 			_ = os.RemoveAll(root)
@@ -327,7 +352,7 @@ func (e *exec) Do(line string) string {
 			return "bad-op"
 		}
 		switch f[1] {
-		case "fst", "ds", "upd", "lib":
+		case "fst", "ds", "dsh", "upd", "lib":
 		default:
 			return "bad-op"
 		}
@@ -337,6 +362,7 @@ func (e *exec) Do(line string) string {
 			return "bad-op"
 		}
 		e.comp, e.rootRel, e.variant, e.cwdRel = f[1], rr, f[3], cw
+		e.chdLog = nil
 		if e.comp != "lib" {
 			e.build()
 		}
@@ -496,6 +522,8 @@ func (e *exec) prepare(f []string) (call func(), finish finishFn) {
 			sort.Strings(created)
 			return "acc dirs " + hxList(created), true
 		}
+	case e.comp == "dsh":
+		return e.prepDsh(f)
 	case e.comp == "upd" && len(f) == 2 && f[0] == "scan":
 		root, ok := unhx(f[1])
 		if !ok {
@@ -641,6 +669,131 @@ func (e *exec) prepFst(op, key string) (func(), finishFn) {
 			}
 	}
 	return nil, nil
+}
+
+// dshChild makes one ChildDir call and returns the handle of the child.
+func (e *exec) dshChild(c dshCall) int {
+	child := e.handles[c.h].ChildDir(c.name, c.perm)
+	for i, h := range e.handles {
+		if h == child {
+			return i
+		}
+	}
+	e.handles = append(e.handles, child)
+	return len(e.handles) - 1
+}
+
+func parsePerm(s string) (os.FileMode, bool) {
+	if s == "" || len(s) > 4 {
+		return 0, false
+	}
+	v := 0
+	for _, c := range s {
+		if c < '0' || c > '7' {
+			return 0, false
+		}
+		v = v*8 + int(c-'0')
+	}
+	return os.FileMode(v), true
+}
+
+// prepDsh: calls on the DirStructure tree of the case.
+func (e *exec) prepDsh(f []string) (func(), finishFn) {
+	s := e.sb
+	if len(f) < 2 {
+		return nil, nil
+	}
+	h := 0
+	for _, c := range f[1] {
+		if c < '0' || c > '9' || len(f[1]) > 6 {
+			return nil, nil
+		}
+		h = h*10 + int(c-'0')
+	}
+	if h >= len(e.handles) {
+		return nil, nil
+	}
+	node := e.handles[h]
+	if f[0] == "chd" {
+		if len(f) != 4 {
+			return nil, nil
+		}
+		name, ok := unhx(f[2])
+		perm, ok2 := parsePerm(f[3])
+		if !ok || !ok2 {
+			return nil, nil
+		}
+		c := dshCall{h, name, perm}
+		idx := -1
+		return func() { idx = e.dshChild(c) }, func() (string, bool) {
+			e.chdLog = append(e.chdLog, c)
+			p := s.virt(e.handles[idx].Path)
+			if p == SB || strings.HasPrefix(p, SB+"/") {
+				p = hx(p)
+			} else {
+				p = "above"
+			}
+			return fmt.Sprintf("child %d %s", idx, p), false
+		}
+	}
+	var err error
+	var call func()
+	switch {
+	case f[0] == "hens" && len(f) == 2:
+		call = func() { err = node.Ensure() }
+	case f[0] == "hena" && len(f) == 3:
+		p, ok := unhx(f[2])
+		if !ok {
+			return nil, nil
+		}
+		call = func() { err = node.EnsureAbsPath(s.real(p)) }
+	case f[0] == "henr" && len(f) == 3:
+		p, ok := unhx(f[2])
+		if !ok {
+			return nil, nil
+		}
+		call = func() { err = node.EnsureRelPath(p) }
+	case f[0] == "hend" && len(f) == 3:
+		xs, ok := unhxList(f[2])
+		if !ok {
+			return nil, nil
+		}
+		call = func() { err = node.EnsureRelDir(xs...) }
+	default:
+		return nil, nil
+	}
+	before := e.listAll()
+	return call, func() (string, bool) {
+		if err != nil {
+			switch {
+			case strings.Contains(err.Error(), "is outside of DirStructure scope"):
+				return "rej outside", false
+			case strings.Contains(err.Error(), "failed to get relative path"):
+				return "rej rel", false
+			}
+			return "acc oserr", true
+		}
+		var created []string
+		for p, isDir := range e.listAll() {
+			if _, was := before[p]; !was && isDir {
+				mode := "?"
+				if st, err := os.Lstat(p); err == nil {
+					mode = fmt.Sprintf("%o", st.Mode().Perm())
+				}
+				created = append(created, hx(s.virt(p))+":"+mode)
+			}
+		}
+		sort.Slice(created, func(i, j int) bool {
+			a, _ := unhx(strings.SplitN(created[i], ":", 2)[0])
+			b, _ := unhx(strings.SplitN(created[j], ":", 2)[0])
+			return a < b
+		})
+		out := "_"
+		if len(created) > 0 {
+			out = strings.Join(created, ",")
+		}
+		return "acc dirsm " + out, true
+	}
 }
 
 const (
